@@ -17,7 +17,9 @@ from typing import Dict, List, Optional, Set, Tuple
 
 from .. import astutil as A
 from .. import guards as G
+from .. import roles
 from .. import instrs as I
+from . import c12
 from ..model import AnalysisError, EnumMember, NamedTupleType, Unknown, dotted, src
 
 TECHNIQUE = "AST table agreement (index constants vs namedtuple fields), coercion- and forwarding-completeness rules, operand-role agreement (static analysis)"
@@ -468,7 +470,39 @@ def check_result_arrays(ctx):
     ctx.check("C11.R", "_alloc_ent_results_array:OK_FIELDS-per-pair", sizes == exp, f"result arrays are sized {sizes}; expected {exp}", b.loc(ar) if ar else "")
 
 
+def normalise(ctx):
+    """name the locals of the functions read below by role (nqsa/roles.py)"""
+    repo = ctx.repo
+    m = repo.module(BE)
+    specs = {
+        "serialize_request": ["$array=[None for $_ in range(SER_CREATE_LEN)]"],
+        "deserialize_epr_keep_results": ["for $i in range(request.number)", "$base=$i*SER_RESPONSE_KEEP_LEN", "$results=[]"],
+        "deserialize_epr_measure_results": ["for $i in range(request.number)", "$base=$i*SER_RESPONSE_MEASURE_LEN", "$results=[]"],
+    }
+    for name, pats in specs.items():
+        fn = m.functions.get(name)
+        if fn is not None:
+            roles.normalise(ctx, fn, pats, f"build_epr.{name}")
+    ex = repo.get_class("netqasm.backend.executor", "Executor")
+    c12.normalise_executor(ctx, ex)
+    xs = {
+        "_get_create_request": ["$kwargs={}", "for ($arg,$field,$default) in zip(...)"],
+        "_store_ent_info": ["$ent_info=[...]", "$ent_results_array_address=epr_cmd_data.ent_results_array_address", "$arr_start=pair_index*OK_FIELDS", "$arr_stop=(pair_index+1)*OK_FIELDS",
+                            "$subroutine_id=epr_cmd_data.subroutine_id", "$app_id=self._get_app_id(...)"],
+    }
+    for name, pats in xs.items():
+        fn = ex.methods.get(name)
+        if fn is not None:
+            roles.normalise(ctx, fn, pats, f"Executor.{name}")
+    b = repo.get_class("netqasm.sdk.builder", "Builder")
+    fn = b.methods.get("_create_ent_info_k_slices")
+    if fn is not None:
+        roles.normalise(ctx, fn, ["for $i in range(num_pairs)", "$ent_info_slices=[]", "$ent_info_slice_futures=ent_results_array.get_future_slice(...)", "$ent_info_slice=LinkLayerOKTypeK(*$ent_info_slice_futures)"],
+                        "Builder._create_ent_info_k_slices")
+
+
 def run(ctx):
+    normalise(ctx)
     check_indices(ctx)
     check_serialize(ctx)
     check_coercion(ctx)
